@@ -36,7 +36,7 @@ CHECKS = {
             "nested contingency runs; each triple is executed on the real code with an injected raise at that hook stage (or "
             "the natural failure), and CalcPipelineTrace.tla validates the recorded hook-event trace against the machine and "
             "decides 'no rows added/removed, no pre-existing input value changed' on the observed final state.",
-            "crash points = hook stages of pandapower/_verif.py + 2 natural failures; estimate()/b2b_vsc not covered; "
+            "crash points = hook stages of pandapower/_verif.py (foreign exception or LoadflowNotConverged) + 2 natural failures; estimate() only on its normal path; b2b_vsc not covered; "
             "tables compared per pre-existing column by value digest",
             "TLC-enumerated crash points injected via env-guarded hooks; trace validation by TLC", "§4 C08"),
     "C09": ("model_checking",
